@@ -72,7 +72,8 @@ def shape(target: str) -> Callable:
 
 
 class _UF:
-    def __init__(self, fn: Callable, result: Any, length: Any, name: str, inverse_of: Any = None):
+    def __init__(self, fn: Callable, result: Any, length: Any, name: str, inverse_of: Any = None, upper: Any = None):
+        self.upper = upper  # optional: upper bound of an int result as a function of the (concrete) arguments
         self.fn = fn
         self.result = result
         self.length = length
@@ -84,12 +85,12 @@ class _UF:
         return self.fn(*a, **k)
 
 
-def uninterpreted(result: Any = bytes, length: Any = None, name: Optional[str] = None, inverse_of: Any = None) -> Callable:
+def uninterpreted(result: Any = bytes, length: Any = None, name: Optional[str] = None, inverse_of: Any = None, upper: Any = None) -> Callable:
     """Spec-level uninterpreted function.  Symbolically: fresh result + congruence; at run time: fn.
     inverse_of=(F, shared, payload) adds the law  G(shared.., F(shared.., x)) == x  (A-crypto-laws)."""
 
     def deco(fn: Callable) -> _UF:
-        u = _UF(fn, result, length, name or fn.__name__, inverse_of)
+        u = _UF(fn, result, length, name or fn.__name__, inverse_of, upper)
         REGISTRY["ufs"][u.name] = u
         return u
 
@@ -184,6 +185,10 @@ class Seq(TypeDesc):
 
     def __init__(self, elem: Any, lo: int = 0, hi: Optional[int] = None):
         self.elem, self.lo, self.hi = elem, lo, hi
+
+
+class GhostDevice(TypeDesc):
+    """A DeviceBase seen as two ghost byte streams: rx (what the device will deliver, universally quantified) and tx (what was written)."""
 
 
 class Opaque(TypeDesc):
